@@ -352,6 +352,19 @@ impl UdpLocator {
     }
 }
 
+/// Verification hook, compiled only with `--cfg dust_dds_verif`: what the UDP sender does with a
+/// destination locator before it touches the socket (multicast test and conversion to a socket
+/// address), so that a simulated transport can run exactly this code for every locator the
+/// participant sends to.
+#[cfg(dust_dds_verif)]
+#[doc(hidden)]
+pub fn verif_resolve_destination(locator: Locator) -> std::io::Result<(bool, Option<SocketAddr>)> {
+    let destination = UdpLocator(locator);
+    let is_multicast = destination.is_multicast();
+    let address = destination.to_socket_addrs()?.next();
+    Ok((is_multicast, address))
+}
+
 struct MessageWriter {
     socket: UdpSocket,
 }
